@@ -36,7 +36,12 @@ def KNOWN_WITNESS_CHECK(entry):
 # ---------------------------------------------------------------------------
 # correspondence: the declarator loop
 
-def real_decls(text):
+def real_decls(text, site='variable'):
+    """the same declarator loop is reached from three call sites: variables, typedefs, class fields"""
+    if site == 'typedef':
+        return real_typedefs('typedef ' + text)
+    if site == 'field':
+        return real_fields('struct S_ { ' + text + ' };')
     try:
         d = parse_string(text)
     except (impl.CxxParseError, AssertionError, RecursionError):
@@ -50,6 +55,42 @@ def real_decls(text):
             return ('other',)
         try:
             out.append((v.name.segments[0].name, decl.from_real(v.type)))
+        except decl.Unrepresentable:
+            return ('other',)
+    return ('ok', out)
+
+
+def real_typedefs(text):
+    try:
+        d = parse_string(text)
+    except (impl.CxxParseError, AssertionError, RecursionError):
+        return ('err',)
+    ns = d.namespace
+    if ns.functions or ns.variables or ns.classes or ns.using_alias or ns.enums or ns.forward_decls or not ns.typedefs:
+        return ('other',)
+    try:
+        return ('ok', [(t.name, decl.from_real(t.type)) for t in ns.typedefs])
+    except decl.Unrepresentable:
+        return ('other',)
+
+
+def real_fields(text):
+    try:
+        d = parse_string(text)
+    except (impl.CxxParseError, AssertionError, RecursionError):
+        return ('err',)
+    ns = d.namespace
+    if len(ns.classes) != 1 or ns.functions or ns.variables or ns.typedefs:
+        return ('other',)
+    c = ns.classes[0]
+    if c.methods or c.classes or c.typedefs or c.enums or c.using or c.using_alias or c.friends or c.forward_decls or not c.fields:
+        return ('other',)
+    out = []
+    for f in c.fields:
+        if f.value is not None or f.bits is not None or f.static or f.constexpr or f.mutable or f.inline or f.access != 'public' or f.name is None:
+            return ('other',)
+        try:
+            out.append((f.name, decl.from_real(f.type)))
         except decl.Unrepresentable:
             return ('other',)
     return ('ok', out)
@@ -336,14 +377,16 @@ def correspond(ctx):
     ms = model_decls(cases)
     for (toks, n), (kind, items), m in zip(cases, metas, ms):
         corr.cases += 1
-        r = real_decls(' '.join(toks))
+        site = ['variable', 'typedef', 'field'][corr.cases % 3]
+        r = real_decls(' '.join(toks), site)
+        kind = kind + "@" + site
         key = kind + ":" + (m[0] if m[0] == 'ok' else 'err%d' % m[1]) + "/" + r[0]
         corr.dist[key] = corr.dist.get(key, 0) + 1
         msg = compare(m, r)
-        if msg is None and kind == 'valid' and (m[0] != 'ok' or m[1] != items):
+        if msg is None and kind.startswith('valid') and (m[0] != 'ok' or m[1] != items):
             msg = "model does not decode the printed statement `%s` to its declarators" % ' '.join(toks)
         if msg:
-            corr.disagreements.append(dict(case=dict(kind='corr', tokens=toks, n=n), model=str(m)[:300], impl=str(r)[:300], what=msg))
+            corr.disagreements.append(dict(case=dict(kind='corr', tokens=toks, n=n, site=site), model=str(m)[:300], impl=str(r)[:300], what=msg + ' (as a ' + site + ')'))
     corr.samples = [dict(tokens=' '.join(cases[0][0])), dict(tokens=' '.join(cases[-1][0]))]
     corr.note = ("extracted fn_decl (function declarations: return-type declarator, name, parameter list, vararg) and extracted parse_decls (the variable loop of _parse_declarations over the declarator model) vs parse_string on the same token lists: "
                  "statements with 1-4 declarators sharing a base type, and token mutations of them; compared: the list of (name, type tree) in order, or rejection")
@@ -506,7 +549,7 @@ def replay(ctx, case):
         return [msg] if msg else []
     if k == 'corr':
         m = model_decls([(case["tokens"], case["n"])])[0]
-        r = real_decls(' '.join(case["tokens"]))
+        r = real_decls(' '.join(case["tokens"]), case.get("site", "variable"))
         msg = compare(m, r)
         return [msg] if msg else []
     if k == 'program':
